@@ -13,6 +13,7 @@ import (
 	"bufio"
 	"bytes"
 	"compress/gzip"
+	"compress/zlib"
 	"encoding/json"
 	"fmt"
 	"io"
@@ -21,6 +22,8 @@ import (
 	"sync"
 	"testing"
 
+	"github.com/andybalholm/brotli"
+	"github.com/klauspost/compress/zstd"
 	"github.com/valyala/fasthttp/internal/verif/seqx"
 	"github.com/valyala/fasthttp/internal/verif/vnet"
 	"github.com/valyala/fasthttp/internal/verif/vrt"
@@ -34,7 +37,8 @@ type c03Case struct {
 	M1, M2 string   // GET / HEAD / POST
 	V1, V2 string   // "1.1", "1.0ka" (HTTP/1.0 + Connection: keep-alive), "1.0"
 	Buf    int      // Server.WriteBufferSize
-	Gzip   bool     // handlers wrapped in CompressHandler, requests carry Accept-Encoding: gzip
+	Gzip   bool     // handlers wrapped in CompressHandlerBrotliLevel, requests carry an Accept-Encoding field ...
+	AE     string   `json:",omitempty"` // ... with this value ("" = "gzip")
 	Pipe   bool     // both requests delivered by one Read (pipelined) instead of one Read each
 	L      int      // number of bytes a body stream / stream writer yields
 	RK     string   // stream reader flavour: "plain" (io.Reader only) or "bytes" (*bytes.Reader, has WriteTo)
@@ -62,6 +66,7 @@ func (c *c03Case) hash() uint64 {
 	h = (h ^ uint64(c.L)) * 1099511628211
 	if c.Gzip {
 		h = (h ^ 1) * 1099511628211
+		mix(c.AE)
 	}
 	if c.Pipe {
 		h = (h ^ 2) * 1099511628211
@@ -69,7 +74,8 @@ func (c *c03Case) hash() uint64 {
 	return h
 }
 
-const c03LongBody = 300 // > minCompressLen
+const c03LongBody = 300   // > minCompressLen
+const c03LongAppend = 250 // > minCompressLen
 
 type c03Reader struct {
 	data []byte
@@ -195,6 +201,15 @@ var c03Ops = []c03Op{
 	{"body-set", func(ctx *RequestCtx, _ *c03Case) { ctx.SetBody([]byte("hello")) }, func(m *c03Model, _ *c03Case) { m.kind, m.body = 0, []byte("hello") }},
 	{"body-set-long", func(ctx *RequestCtx, _ *c03Case) { ctx.SetBody(c03Pattern[:c03LongBody]) },
 		func(m *c03Model, _ *c03Case) { m.kind, m.body = 0, append([]byte(nil), c03Pattern[:c03LongBody]...) }},
+	{"body-append-long", func(ctx *RequestCtx, _ *c03Case) { ctx.Response.AppendBody(c03Pattern[1000 : 1000+c03LongAppend]) },
+		func(m *c03Model, _ *c03Case) {
+			if m.kind != 0 {
+				m.kind, m.body = 0, nil
+			}
+			m.body = append(append([]byte(nil), m.body...), c03Pattern[1000:1000+c03LongAppend]...)
+		}},
+	{"body-raw-long", func(ctx *RequestCtx, _ *c03Case) { ctx.Response.SetBodyRaw(c03Pattern[500 : 500+c03LongBody]) },
+		func(m *c03Model, _ *c03Case) { m.kind, m.body = 0, append([]byte(nil), c03Pattern[500:500+c03LongBody]...) }},
 	{"body-append", func(ctx *RequestCtx, _ *c03Case) { ctx.Response.AppendBody([]byte("+more")) },
 		func(m *c03Model, _ *c03Case) {
 			if m.kind != 0 { // a stream cannot be appended to: it is replaced
@@ -327,7 +342,7 @@ func (ss *c03Servers) get(buf int) *Server {
 			}
 		}
 	}
-	gz := CompressHandler(h)
+	gz := CompressHandlerBrotliLevel(h, CompressBrotliBestSpeed, CompressBestSpeed) // the level is irrelevant to framing
 	s := &Server{WriteBufferSize: buf, Logger: c03NullLogger{}, Name: "verif",
 		Handler: func(ctx *RequestCtx) {
 			if ss.cur.c.Gzip {
@@ -340,7 +355,48 @@ func (ss *c03Servers) get(buf int) *Server {
 	return s
 }
 
-func c03Request(method, ver string, gz bool) []byte {
+func c03AcceptEncoding(c *c03Case) string {
+	if !c.Gzip {
+		return ""
+	}
+	if c.AE == "" {
+		return "gzip"
+	}
+	return c.AE
+}
+
+// c03Decode undoes the content coding a response declares, with decoders that are not fasthttp's own code.
+func c03Decode(enc string, b []byte) ([]byte, error) {
+	var rd io.Reader
+	switch enc {
+	case "gzip":
+		zr, err := gzip.NewReader(bytes.NewReader(b))
+		if err != nil {
+			return nil, err
+		}
+		rd = zr
+	case "deflate": // fasthttp's "deflate" is the zlib format of RFC 9110
+		zr, err := zlib.NewReader(bytes.NewReader(b))
+		if err != nil {
+			return nil, err
+		}
+		rd = zr
+	case "br":
+		rd = brotli.NewReader(bytes.NewReader(b))
+	case "zstd":
+		zr, err := zstd.NewReader(bytes.NewReader(b))
+		if err != nil {
+			return nil, err
+		}
+		defer zr.Close()
+		rd = zr
+	default:
+		return nil, fmt.Errorf("unknown content coding %q", enc)
+	}
+	return io.ReadAll(rd)
+}
+
+func c03Request(method, ver string, ae string) []byte {
 	var b bytes.Buffer
 	proto := "HTTP/1.1"
 	if ver != "1.1" {
@@ -350,8 +406,8 @@ func c03Request(method, ver string, gz bool) []byte {
 	if ver == "1.0ka" {
 		b.WriteString("Connection: keep-alive\r\n")
 	}
-	if gz {
-		b.WriteString("Accept-Encoding: gzip\r\n")
+	if ae != "" {
+		b.WriteString("Accept-Encoding: " + ae + "\r\n")
 	}
 	if method == "POST" {
 		b.WriteString("Content-Length: 3\r\n\r\nabc")
@@ -386,7 +442,7 @@ func c03Exec(ss *c03Servers, c *c03Case) (res *c03Result) {
 }
 
 func c03ExecInner(ss *c03Servers, c *c03Case) *c03Result {
-	r1, r2 := c03Request(c.M1, c.V1, c.Gzip), c03Request(c.M2, c.V2, c.Gzip)
+	r1, r2 := c03Request(c.M1, c.V1, c03AcceptEncoding(c)), c03Request(c.M2, c.V2, c03AcceptEncoding(c))
 	var conn *vnet.Conn
 	if c.Pipe {
 		conn = vnet.NewConn(append(append([]byte(nil), r1...), r2...))
@@ -542,15 +598,16 @@ func c03Oracle(c *c03Case, run *c03Run, res *c03Result) {
 			}
 		}
 		gotBody := w.Body
-		if c.Gzip && w.HasToken("Content-Encoding", "gzip") && len(gotBody) > 0 {
+		if ce := w.Get("Content-Encoding"); c.Gzip && len(ce) > 0 && len(gotBody) > 0 {
+			// no op sets Content-Encoding, so a declared coding is the compression wrapper's and must be transparent
 			res.gzipped = true
-			zr, gerr := gzip.NewReader(bytes.NewReader(gotBody))
-			if gerr == nil {
-				gotBody, gerr = io.ReadAll(zr)
-			}
-			if gerr != nil {
-				add("gzip-body-undecodable", "response %d: Content-Encoding gzip but body does not gunzip: %v", k+1, gerr)
+			dec, derr := c03Decode(ce[0], gotBody)
+			if derr != nil || len(ce) != 1 {
+				add("content-coding-undecodable:"+strings.Join(ce, "+"), "response %d declares Content-Encoding %q but its %d body bytes do not decode: %v; body starts %s",
+					k+1, ce, len(gotBody), derr, vrt.Q(c03Clip(gotBody)))
 				gotBody = nil
+			} else {
+				gotBody = dec
 			}
 		}
 		if !sendBody && len(w.Body) != 0 {
@@ -665,7 +722,7 @@ var c03Simpler = map[string][]string{
 	"writer-1": {"stream-chunked"}, "writer-3": {"stream-chunked", "writer-1"},
 	"stream-exact": {"stream-chunked"}, "stream-short": {"stream-chunked", "stream-exact"}, "stream-long": {"stream-chunked", "stream-exact", "stream-short"},
 	"status-304": {"status-204"}, "status-999": {"status-404"}, "status-200": {"status-404"},
-	"skipbody": {"status-204"}, "body-set-long": {"body-set"}, "cookie-a2": {"cookie-a"}, "cookie-b": {"cookie-a"},
+	"skipbody": {"status-204"}, "body-set-long": {"body-set"}, "body-raw-long": {"body-raw"}, "body-append-long": {"body-append"}, "cookie-a2": {"cookie-a"}, "cookie-b": {"cookie-a"},
 	"set-xa-2": {"set-xa-1"}, "set-xb": {"set-xa-1"},
 }
 
@@ -718,7 +775,7 @@ func c03Shrink(ss *c03Servers, c c03Case, sym string) c03Case {
 		for _, f := range []func(*c03Case){
 			func(x *c03Case) { x.M1 = canon.M1 }, func(x *c03Case) { x.M2 = canon.M2 },
 			func(x *c03Case) { x.V1 = canon.V1 }, func(x *c03Case) { x.V2 = canon.V2 },
-			func(x *c03Case) { x.Buf = canon.Buf }, func(x *c03Case) { x.Gzip = false }, func(x *c03Case) { x.Pipe = false },
+			func(x *c03Case) { x.Buf = canon.Buf }, func(x *c03Case) { x.Gzip, x.AE = false, "" }, func(x *c03Case) { x.AE = "" }, func(x *c03Case) { x.Pipe = false },
 			func(x *c03Case) { x.L = canon.L }, func(x *c03Case) { x.RK = canon.RK },
 			func(x *c03Case) { // HEAD and a bodyless status are the same family: prefer the op
 				if x.M1 == "HEAD" {
@@ -752,7 +809,7 @@ func c03Shrink(ss *c03Servers, c c03Case, sym string) c03Case {
 							cand.P2 = np
 						}
 						if dropGzip {
-							cand.Gzip = false
+							cand.Gzip, cand.AE = false, ""
 						}
 						if try(cand) {
 							changed = true
@@ -805,7 +862,11 @@ func c03Sig(sym string, c c03Case) string {
 		parts = append(parts, fmt.Sprintf("wbuf=%d", c.Buf))
 	}
 	if c.Gzip {
-		parts = append(parts, "gzip")
+		if c.AE == "" {
+			parts = append(parts, "gzip")
+		} else {
+			parts = append(parts, "accept-encoding="+strings.ReplaceAll(c.AE, " ", ""))
+		}
 	}
 	if c.Pipe {
 		parts = append(parts, "pipelined")
@@ -850,6 +911,9 @@ func c03MinFeatures(c c03Case) []string {
 	}
 	if c.Gzip {
 		f = append(f, "gzip")
+		if c.AE != "" {
+			f = append(f, "ae:"+c.AE)
+		}
 	}
 	if c.Pipe {
 		f = append(f, "pipe")
@@ -919,6 +983,9 @@ func c03CaseFeatures(c c03Case) map[string][]c03Src {
 	}
 	if c.Gzip {
 		add("gzip", c03Src{3, 0, "Gzip"})
+		if c.AE != "" {
+			add("ae:"+c.AE, c03Src{3, 0, "Gzip"})
+		}
 	}
 	if c.Pipe {
 		add("pipe", c03Src{3, 0, "Pipe"})
@@ -953,7 +1020,7 @@ func c03Without(c c03Case, cf map[string][]c03Src, feats []string) c03Case {
 				case "Buf":
 					out.Buf = canon.Buf
 				case "Gzip":
-					out.Gzip = false
+					out.Gzip, out.AE = false, ""
 				case "Pipe":
 					out.Pipe = false
 				case "L":
@@ -1112,8 +1179,8 @@ func TestVerif_C03(t *testing.T) {
 	}
 	r.Rule(fmt.Sprintf("every handler program of at most %d calls over %d response-building ops %v, run through Server.ServeConn on a scripted connection with two requests; "+
 		"environment slots {program answers request 1 / request 2 / both; method1, method2 in GET,HEAD,POST; version1, version2 in 1.1, 1.0+keep-alive, 1.0; "+
-		"WriteBufferSize 4096/64; CompressHandler+Accept-Encoding off/on; delivery one Read per request/pipelined; stream yield L in 100/5/5000; reader flavour io.Reader/*bytes.Reader} "+
-		"enumerated with at most %d slots off their canonical value (1 slot for programs of maximal length); oracle: own RFC 9112 splitter cross-checked with net/http.ReadResponse on every response, compared with a reference model of the program "+
+		"WriteBufferSize 4096/64; CompressHandlerBrotliLevel off / on with Accept-Encoding gzip, deflate, br, zstd, 'deflate, gzip;q=0'; delivery one Read per request/pipelined; stream yield L in 100/5/5000; reader flavour io.Reader/*bytes.Reader} "+
+		"enumerated with at most %d slots off their canonical value (1 slot, and only gzip/deflate as content coding, for programs of maximal length); oracle: own RFC 9112 splitter cross-checked with net/http.ReadResponse on every response, compared with a reference model of the program "+
 		"(status, handler-set fields as multisets, body, boundaries, mismatch clause); non-trivial: the (program, environment) produced a response whose framing class "+
 		"(bodyless / chunked / gzip / closing / stream mismatch) is not the canonical fixed-length keep-alive one", maxOps, len(c03Ops), names, envDev))
 	r.Assume("net/http.ReadResponse and the harness's own RFC 9112 splitter as independent HTTP/1.1 parsers (they must agree on every response)",
@@ -1137,12 +1204,13 @@ func TestVerif_C03(t *testing.T) {
 	bufs := []int{4096, 64}
 	Ls := []int{100, 5, 5000}
 	rks := []string{"plain", "bytes"}
+	aes := []string{"", "", "deflate", "br", "zstd", "deflate, gzip;q=0"} // index 0: no compression wrapper; 1: gzip
 	type env struct {
 		idx []int
 		dev int
 	}
 	var envs []env
-	seqx.Product([]int{3, 3, 3, 3, 3, 2, 2, 2, 3, 2}, envDev, func(idx []int) bool {
+	seqx.Product([]int{3, 3, 3, 3, 3, 2, 6, 2, 3, 2}, envDev, func(idx []int) bool {
 		d := 0
 		for _, v := range idx {
 			if v != 0 {
@@ -1177,8 +1245,8 @@ func TestVerif_C03(t *testing.T) {
 			}
 			for _, e := range envs {
 				x := e.idx
-				if len(prog) == maxOps && e.dev > 1 {
-					continue
+				if len(prog) == maxOps && (e.dev > 1 || x[6] > 2) {
+					continue // the longest programs: one deviation, content codings gzip and deflate only
 				}
 				if !hasStream && (x[8] != 0 || x[9] != 0) {
 					continue // stream length / reader flavour are irrelevant without a stream op: same case as canonical
@@ -1193,7 +1261,8 @@ func TestVerif_C03(t *testing.T) {
 					c.P1, c.P2 = prog, prog
 				}
 				c.M1, c.V1, c.M2, c.V2 = meth[x[1]], vers[x[2]], meth[x[3]], vers[x[4]]
-				c.Buf, c.Gzip, c.Pipe, c.L, c.RK = bufs[x[5]], x[6] == 1, x[7] == 1, Ls[x[8]], rks[x[9]]
+				c.Buf, c.Gzip, c.Pipe, c.L, c.RK = bufs[x[5]], x[6] != 0, x[7] == 1, Ls[x[8]], rks[x[9]]
+				c.AE = aes[x[6]]
 				res := c03Exec(ss, &c)
 				n++
 				if len(res.finds) > 0 || res.toolErr != "" {
